@@ -232,7 +232,8 @@ def k1_explains(diffs, d: bytes, k1: bytes):
 
 
 def std_configs(rng, thorough, top, compiled_both=True):
-    ptr_pool = ["uint64", "uint32", "uint16", "uint8"]
+    # (the odd widths are integer types whose alignment differs from their size: 3 -> 4, 6 -> 8)
+    ptr_pool = ["uint64", "uint32", "uint16", "uint8", "uint64", "uint32", "uint16", "uint8", "uint24", "uint48"]
     out = []
     for endian in ("<", ">"):
         for align in (False, True):
